@@ -202,15 +202,65 @@ pub fn run(rep: &mut Report) {
         });
         rep.agg.merge(b);
     }
+    // ---- large chunks: chunks of 0.3 - 2 MiB (more than any per-call scan budget or read size), streams of 5 MiB,
+    // the second stream delivered whole and in 64 KiB reads
+    {
+        let mut x: u32 = 4242;
+        let mut rnd = move || {
+            x ^= x << 13;
+            x ^= x >> 17;
+            x ^= x << 5;
+            (x >> 8) as u8
+        };
+        let suf: Vec<u8> = (0..5_000_000).map(|_| rnd()).collect();
+        let pres: Vec<Vec<u8>> = vec![vec![], (0..3001).map(|_| rnd()).collect(), vec![0u8; 700_001]];
+        let mut agg = Agg::default();
+        for algo in [Algo::Roll, Algo::Buz] {
+            let c = Cfg::new(algo, 64, 300_000, 2 << 20, 19);
+            let bc = c.to_bitar();
+            for i in 0..pres.len() {
+                let mut d1 = pres[i].clone();
+                d1.extend_from_slice(&suf);
+                let c1 = match real_cuts(&bc, &d1) {
+                    Ok(x) => x,
+                    Err(e) => {
+                        agg.viol("chunker-failed", || json!({"cfg": c.json(), "error": format!("{e:?}")}));
+                        continue;
+                    }
+                };
+                for j in 0..pres.len() {
+                    if i == j {
+                        continue;
+                    }
+                    agg.add("large_chunk_pairs", 1);
+                    check_pair_reads(&c, &bc, &pres[i], &pres[j], &suf, &c1, if j > i { 0 } else { 65_536 }, &mut agg);
+                }
+            }
+        }
+        // replay files embed the streams: keep one example per class small enough to be useful
+        for c in agg.classes.values_mut() {
+            for e in c.examples.iter_mut() {
+                e["s"] = json!("(5 MB pseudo-random suffix, xorshift seed 4242: not embedded)");
+                e["p1"] = json!(format!("({} bytes)", e["p1"].as_str().map_or(0, |h| h.len() / 2)));
+                e["p2"] = json!(format!("({} bytes)", e["p2"].as_str().map_or(0, |h| h.len() / 2)));
+                e["large_chunk_family"] = json!(true);
+            }
+        }
+        rep.agg.merge(agg);
+    }
     let pairs_n = rep.agg.get("pairs");
     rep.set("evaluations", json!(pairs_n));
     rep.set("distinct_nontrivial", json!(rep.agg.get("pairs_common_boundary_and_differing_earlier")));
     rep.set("exhaustive", json!(true));
-    rep.set("rule", json!("all (P1,P2,S): P over {00,07}^<=3, S all strings of suffix_len over each suffix alphabet, all grid configurations, single-read delivery plus a 1-in-16 slice with the second stream delivered 1 or 3 bytes per read with Pending results in between; plus a fixed family with windows 4200 / 6000 / 16384 (32-bit hash sums wrap around), 5 prefixes (empty, zeros, 0xff runs, pseudo-random) x 3 suffixes of 70 kB, all prefix pairs; a case is non-trivial when both chunkings share a boundary at an S-position >= window and their boundary sets before it differ (the premise of the statement holds and resynchronisation is actually exercised)"));
+    rep.set("rule", json!("all (P1,P2,S): P over {00,07}^<=3, S all strings of suffix_len over each suffix alphabet, all grid configurations, single-read delivery plus a 1-in-16 slice with the second stream delivered 1 or 3 bytes per read with Pending results in between; plus a fixed family with windows 4200 / 6000 / 16384 (32-bit hash sums wrap around), 5 prefixes (empty, zeros, 0xff runs, pseudo-random) x 3 suffixes of 70 kB, all prefix pairs; and a family with chunks of 0.3 - 2 MiB (window 64, minimum 300 kB, 19 filter bits, maximum 2 MiB) on a 5 MB suffix behind {nothing, 3001 random bytes, 700 001 zeros}, every ordered prefix pair, the second stream delivered whole or in 64 KiB reads; a case is non-trivial when both chunkings share a boundary at an S-position >= window and their boundary sets before it differ (the premise of the statement holds and resynchronisation is actually exercised)"));
     rep.assume("prefixes up to 3 bytes and suffixes of one fixed small length; windows 1..4");
 }
 
 pub fn replay(v: &serde_json::Value) -> bool {
+    if v["large_chunk_family"].as_bool() == Some(true) {
+        println!("replay: a case of the large-chunk family (streams of 5 MB are not embedded): re-run the check");
+        return true;
+    }
     let c = Cfg::from_json(&v["cfg"]);
     let bc = c.to_bitar();
     let (p1, p2, s) = (unhex(v["p1"].as_str().unwrap()), unhex(v["p2"].as_str().unwrap()), unhex(v["s"].as_str().unwrap()));
